@@ -407,6 +407,41 @@ theorem transports_agree (P : Pipeline m J Schema Feat Cost Ctx Doc Resp) (S : S
   funext resp
   cases t₁ <;> cases t₂ <;> rfl
 
+/-- One request of a history: who asks (context), over what, which operation. -/
+structure HistItem (J Ctx : Type) where
+  ctx : Ctx
+  extras : Extras
+  transport : Transport
+  req : Req J
+
+/-- The reference for a history: `core` on each request with the features of *that* request's
+    context, delivered the way its transport delivers — no reference to earlier requests. -/
+def coreAll (P : Pipeline m J Schema Feat Cost Ctx Doc Resp) (S : SchemaOps Def Schema)
+    (a : Api Def Feat Cost Ctx) : List (HistItem J Ctx) → m (List (Served Resp))
+  | [] => pure []
+  | i :: rest => do
+    let o ← deliver i.transport i.extras <$> core P (a.schema S) (a.features i.ctx) a.defaultCost i.ctx i.req
+    let os ← coreAll P S a rest
+    pure (o :: os)
+
+/-- **history_same_responses** — serving any sequence of requests on one API value (transports,
+    callers' contexts / features, variables, operation names varying freely between them) answers
+    each request with `core` on *that* request under the features of *that* request's context: the
+    i-th answer does not depend on which requests came before or how they were carried. -/
+theorem history_same_responses (P : Pipeline m J Schema Feat Cost Ctx Doc Resp) (S : SchemaOps Def Schema)
+    (a : Api Def Feat Cost Ctx) (c : Codec J) (e : Encoders J) (law : Lawful c e)
+    (items : List (HistItem J Ctx))
+    (hc : ∀ i ∈ items, canCarry i.transport i.req)
+    (hsub : ∀ i ∈ items, ∀ doc, P.isSubscription doc i.req.operationName = false) :
+    serveAll P S a c true (items.map fun i => (i.ctx, encode e i.extras i.transport i.req)) = coreAll P S a items := by
+  induction items with
+  | nil => rfl
+  | cons i rest ih =>
+    have h1 := transport_same_response P S a c e law i.ctx i.extras i.transport i.req
+      (hc i (by simp)) (hsub i (by simp))
+    have h2 := ih (fun j hj => hc j (by simp [hj])) (fun j hj => hsub j (by simp [hj]))
+    simp only [List.map_cons, serveAll, coreAll, h1, h2]
+
 /-- **ws_features_from_connection_context** — the one place where the WebSocket path differs by
     construction: its features are those of the *connection* context at `connection_init`, the HTTP
     path's those of each request's context. Both paths compute `core` with the same features exactly
